@@ -72,7 +72,8 @@ struct PolBase {
 };
 
 #if CFG == 0
-using Key = int; struct Pol : PolBase {}; using D = DTYPE<Key, void(int, Val), Pol>;
+// a canContinueInvoking policy that takes the arguments BY VALUE: it must get copies, the listeners after it the intact values
+using Key = int; struct Pol : PolBase { static bool canContinueInvoking(int, Val v) { Val sink(std::move(v)); (void)sink; return true; } }; using D = DTYPE<Key, void(int, Val), Pol>;
 #elif CFG == 1
 using Key = int; struct Pol : PolBase { using ArgumentPassingMode = eventpp::ArgumentPassingExcludeEvent; }; using D = DTYPE<Key, void(Val), Pol>;
 #elif CFG == 2
@@ -175,6 +176,10 @@ extern "C" void harness()
 		vf_assert(d->hasAnyListener(mk(kd)) == (kd == k1 || kd == k2), 212);
 		int n1 = 0; d->forEach(mk(k1), [&](const D::Handle &, const D::Callback &) { n1++; });
 		vf_assert(n1 == (k1 == k2 ? 4 : 2), 213);
+		int n2 = 0; bool r = d->forEachIf(mk(k1), [&](const D::Handle &, const D::Callback &) -> bool { n2++; return false; });
+		vf_assert(! r && n2 == 1, 214);                  // forEachIf stops at once and says so, like the callback list's
+		bool r3 = d->forEachIf(mk(k1), [&](const D::Handle &, const D::Callback &) -> bool { return true; });
+		vf_assert(r3, 215);
 	}
 	g_tr.clear(); g_ok = true; g_expect_key = kd; g_expect_val = val;
 #if CFG == 8
